@@ -4,7 +4,16 @@
 //! its pipe consumer (tap 99), and closures on a per-tick trigger stream that hold `#{g} [mut] st` references —
 //! written in a textual order different from the group order.  Compiled by the real `dfir_syntax!`.
 //!
+//! State kinds: `S<init>` singleton(), `V` handoff() Vec, `O` optional() (fed by a `'tick` reduce).  A closure ending in
+//! `!` sends its output into the union read by the state's pipe consumer, so the partitioner MAY put borrower and pipe
+//! consumer into one subgraph (finding F25: the subgraph take()s the slot before the borrower reads it).
+//!
 //! ops:  send v,v -> ok          tick <n> (n trigger items, then run_tick_sync) -> t=<tick> out=<taps>
+//!       groups -> the access groups of the REAL partitioned graph (`node_handoff_reference_groups`, the input of
+//!                 `find_access_group_ordering`): `g=<key>:<members>,… pairs=<number of consecutive-group pairs>`
+//! Structural oracle (once per instance, on `df.meta_graph()`): in the emitted `subgraph_toposort`, every producer of the
+//! referenced handoff is strictly before every borrower, every borrower strictly before every pipe consumer, and every
+//! borrower of an earlier access group strictly before every borrower of a later one.
 use std::cell::RefCell;
 use std::collections::BTreeMap;
 use std::rc::Rc;
@@ -21,6 +30,9 @@ struct Inst {
     df: DfirErased,
     tx: dfir_rs::tokio::sync::mpsc::UnboundedSender<i64>,
     trig: dfir_rs::tokio::sync::mpsc::UnboundedSender<i64>,
+    trig2: dfir_rs::tokio::sync::mpsc::UnboundedSender<i64>,
+    /// structural oracle: a borrower shares a subgraph with (or comes after) a pipe consumer of the borrowed handoff
+    shared: bool,
     out: Out,
     pending: Vec<i64>,
 }
@@ -47,9 +59,11 @@ fn show_taps(recs: &[(usize, i64)]) -> String {
 fn expected(dsl: &str, sent: &[i64], n: usize) -> Vec<(usize, i64)> {
     let parts: Vec<&str> = dsl.split(';').collect();
     let vec_kind = parts[0] == "V";
+    let opt_kind = parts[0] == "O";
     let mut cl: Vec<(i64, &str)> = parts[1..]
         .iter()
         .map(|c| {
+            let c = c.strip_suffix('!').unwrap_or(c); // where a closure's output goes does not change what it must see
             let (g, op) = c.split_once(':').unwrap();
             (if g == "-" { -1 } else { g.parse::<i64>().unwrap() }, op)
         })
@@ -71,6 +85,24 @@ fn expected(dsl: &str, sent: &[i64], n: usize) -> Vec<(usize, i64)> {
             }
         }
         for v in buf {
+            out.push((99, v));
+        }
+    } else if opt_kind {
+        // reduce::<'tick>: no item this tick -> None
+        let mut val: Option<i64> = if sent.is_empty() { None } else { Some(sent.iter().sum::<i64>()) };
+        for (_, op) in &cl {
+            let (k, a) = op.split_at(1);
+            let a: i64 = a.parse().unwrap();
+            for _ in 0..n {
+                match k {
+                    "a" => val = val.map(|v| v + a),
+                    "m" => val = val.map(|v| v * a),
+                    "r" => out.push((a as usize, val.unwrap_or(-1))),
+                    _ => unreachable!(),
+                }
+            }
+        }
+        if let Some(v) = val {
             out.push((99, v));
         }
     } else {
@@ -97,9 +129,70 @@ impl Inst {
         let (dsl, f) = C25_PROGS[idx];
         let (tx, rx): (_, RxStream) = dfir_rs::util::unbounded_channel::<i64>();
         let (trig, trx): (_, RxStream) = dfir_rs::util::unbounded_channel::<i64>();
+        let (trig2, trx2): (_, RxStream) = dfir_rs::util::unbounded_channel::<i64>();
         let out: Out = Rc::new(RefCell::new(Vec::new()));
-        let df = f(rx, trx, out.clone());
-        Inst { dsl: dsl.to_string(), df, tx, trig, out, pending: Vec::new() }
+        let df = f(rx, trx, trx2, out.clone());
+        Inst { dsl: dsl.to_string(), df, tx, trig, trig2, shared: false, out, pending: Vec::new() }
+    }
+
+    /// the access groups the real partitioner works from (BTreeMap<Option<u32>, _> per referenced handoff)
+    fn groups(&self) -> String {
+        let g = self.df.meta_graph().expect("meta graph");
+        let mut parts = Vec::new();
+        let mut pairs = 0usize;
+        for (_h, groups) in g.node_handoff_reference_groups() {
+            let sizes: Vec<(Option<u32>, usize)> = groups.iter().map(|(k, v)| (*k, v.len())).collect();
+            for w in sizes.windows(2) {
+                pairs += w[0].1 * w[1].1;
+            }
+            for (k, n) in sizes {
+                parts.push(format!("{}:{}", k.map(|x| x.to_string()).unwrap_or_else(|| "-".into()), n));
+            }
+        }
+        format!("g={} pairs={}", if parts.is_empty() { "-".to_string() } else { parts.join(",") }, pairs)
+    }
+
+    /// structural oracle on the emitted subgraph order; returns whether a borrower is not strictly before a pipe consumer
+    fn structure(&self, rec: &mut Recorder) -> bool {
+        use dfir_rs::dfir_lang::graph::GraphNode;
+        let g = self.df.meta_graph().expect("meta graph");
+        let order = g.subgraph_toposort();
+        let pos = |n| g.node_subgraph(n).and_then(|sg| order.iter().position(|&x| x == sg));
+        // operators next to a handoff node, jumping over the handoff
+        let mut shared = false;
+        let mut refs: Vec<(dfir_rs::dfir_lang::graph::GraphNodeId, dfir_rs::dfir_lang::graph::GraphNodeId, Option<u32>)> = Vec::new();
+        for b in g.node_ids() {
+            for r in g.node_handoff_references(b) {
+                let Some(h) = r.node_id else { continue };
+                refs.push((b, h, r.access_group));
+                if !matches!(g.node(h), GraphNode::Handoff { .. }) {
+                    continue;
+                }
+                let pb = pos(b);
+                for (_e, p) in g.node_predecessors(h) {
+                    let ok = matches!((pos(p), pb), (Some(x), Some(y)) if x < y);
+                    rec.check(ok, "producer-not-strictly-before-borrower", &format!("prog={} order={:?}/{:?}", self.dsl, pos(p), pb));
+                }
+                for (_e, c) in g.node_successors(h) {
+                    let ok = matches!((pb, pos(c)), (Some(x), Some(y)) if x < y);
+                    if !ok {
+                        shared = true;
+                    }
+                    rec.check(ok, "borrower-not-strictly-before-pipe-consumer", &format!("prog={} borrower sg pos {:?}, consumer sg pos {:?}", self.dsl, pb, pos(c)));
+                }
+            }
+        }
+        let key = |g: Option<u32>| g.map(|x| x as i64).unwrap_or(-1);
+        for &(a, ha, ga) in &refs {
+            for &(b, hb, gb) in &refs {
+                if ha == hb && key(ga) < key(gb) {
+                    let ok = matches!((pos(a), pos(b)), (Some(x), Some(y)) if x < y);
+                    rec.check(ok, "access-groups-not-in-subgraph-order", &format!("prog={} groups {:?} < {:?} at {:?}/{:?}", self.dsl, ga, gb, pos(a), pos(b)));
+                }
+            }
+        }
+        rec.count(if shared { "borrower-shares-consumer-subgraph" } else { "borrower-before-consumer" });
+        shared
     }
 }
 
@@ -122,9 +215,14 @@ fn exec_line(rec: &mut Recorder, inst: &mut Option<Inst>, line: &str) {
             rec.count("send");
             "ok".to_string()
         }),
+        (["groups"], Some(i)) => {
+            rec.count("groups");
+            Some(i.groups())
+        }
         (["tick", n], Some(i)) => n.parse::<usize>().ok().filter(|n| *n <= 8).map(|n| {
             for _ in 0..n {
                 let _ = i.trig.send(0);
+                let _ = i.trig2.send(0);
             }
             let before: u64 = i.df.current_tick().into();
             let df = &mut i.df;
@@ -132,7 +230,7 @@ fn exec_line(rec: &mut Recorder, inst: &mut Option<Inst>, line: &str) {
                 df.run_tick_sync();
             })) {
                 // e.g. a reference evaluated after the pipe consumer drained the slot
-                rec.check(false, "tick-panicked-on-reference", &format!("prog={} n={} panic: {}", i.dsl, n, msg.chars().take(120).collect::<String>()));
+                rec.check(false, if i.shared { "reference-panicked-after-drain@borrower-in-consumer-subgraph" } else { "tick-panicked-on-reference" }, &format!("prog={} n={} panic: {}", i.dsl, n, msg.chars().take(120).collect::<String>()));
                 dead = true;
                 return "panic".to_string();
             }
@@ -142,7 +240,7 @@ fn exec_line(rec: &mut Recorder, inst: &mut Option<Inst>, line: &str) {
             let got = show_taps(&recs);
             let want = show_taps(&expected(&i.dsl, &sent, n));
             rec.check(after == before + 1, "tick-counter-not-plus-one", &i.dsl);
-            rec.check(got == want, "reference-read-not-settled-or-groups-out-of-order", &format!("prog={} sent={:?} n={} got={} expected={}", i.dsl, sent, n, got, want));
+            rec.check(got == want, if i.shared { "reference-read-after-drain@borrower-in-consumer-subgraph" } else { "reference-read-not-settled-or-groups-out-of-order" }, &format!("prog={} sent={:?} n={} got={} expected={}", i.dsl, sent, n, got, want));
             rec.count("tick");
             rec.count(&format!("trigger-items-{n}"));
             format!("t={} out={}", after, got)
@@ -177,6 +275,9 @@ pub fn main(args: &Args) {
                 let tag = ws.get(2).copied().unwrap_or("");
                 rec.case(n, tag);
                 inst = prog_index(tag).map(Inst::new);
+                if let Some(i) = inst.as_mut() {
+                    i.shared = i.structure(&mut rec);
+                }
             } else {
                 exec_line(&mut rec, &mut inst, &l);
             }
@@ -194,6 +295,10 @@ pub fn main(args: &Args) {
         let mut inst = Some(Inst::new(idx));
         rec.case(n, &format!("refs={}", C25_PROGS[idx].0));
         rec.count(&format!("prog-{idx:02}"));
+        if let Some(i) = inst.as_mut() {
+            i.shared = i.structure(&mut rec);
+        }
+        exec_line(&mut rec, &mut inst, "groups");
         for _ in 0..rng.range(2, 7) {
             let l = match rng.below(10) {
                 0..=3 => {
